@@ -30,7 +30,7 @@ echo "patched=$patched" >> $log
 # existing tests (demo files removed first so they do not count)
 (cd $seed/demo && find . -type f) | while read f; do rm -f "$wt/$f"; done
 echo "== existing tests" >> $log
-pk="./core/... ./blockchain/... ./mempool/... ./dpos/state/... ./cr/... ./database/... ./test/unit/... ./crypto/... ./auxpow/... ./pow/... ./common/... ./utils/... ./elanet/bloom/... ./elanet/peer/... ./p2p/msg/... ./p2p/server/... ./p2p/addrmgr/... ./wallet/... ./account/... ./servers/... ./errors/... ./events/..."
+pk="./core/... ./blockchain/... ./mempool/... ./dpos/state/... ./cr/... ./database/... ./test/unit/... ./crypto/... ./auxpow/... ./pow/... ./common/... ./utils/ ./utils/gpath/... ./elanet/bloom/... ./elanet/peer/... ./p2p/msg/... ./p2p/server/... ./p2p/addrmgr/... ./wallet/... ./account/... ./servers/... ./errors/... ./events/..."
 go test -vet=off -count=1 -p 4 -timeout 20m $pk 2>&1 | grep -E "^(ok|FAIL|--- FAIL|panic)" > $out/tests.txt
 fails=$(grep -E "^(--- FAIL|FAIL|panic)" $out/tests.txt | grep -v "TestCheckTimeOfReword" | grep -vE "^FAIL$" )
 # retry failing packages once, serially (timing flakes under load)
